@@ -244,6 +244,13 @@ def lookupLocalName (n : NameSec) (f i : Nat) : Option Bytes :=
   | some m => m.lookup i
   | none => none
 
+/-! ## label resolution (`br $l`): the nearest enclosing block with that label -/
+
+/-- `stk`: labels of the enclosing blocks, innermost first (`none` = unlabelled) -/
+def resolveLabel : List (Option Bytes) → Bytes → Option Nat
+  | [], _ => none
+  | x :: r, l => if x = some l then some 0 else (resolveLabel r l).map (· + 1)
+
 /-- strictly increasing -/
 def StrictInc : List Nat → Prop
   | [] => True
